@@ -24,6 +24,18 @@ RULE = ('race: 1-4 managed threads run scripted SetAttribute / AddEvent / SetSta
         'smallest, then random schedules; scheduling points at every call begin, lock / unlock of mu_, every setter of the '
         'recordable and OnEnd; the last reference is dropped at the end (~Span). The trace is replayed on the Lean lock-protocol '
         'model. non-trivial (race cases) = an End in some script and two threads stepped before the drain')
+LEVEL_TEXT_ADD = (' Concurrency (Props/C04Race.lean): a lock-protocol model of span.cc with any number of threads, one step per lock / test / '
+                  'setter / hand-off / unlock; one inductive invariant over ALL interleavings gives: no setter through a null '
+                  'recordable_, OnEnd at most once and exactly once when some End has returned, the handed-off recordable = the log '
+                  'of the writes in lock-acquisition order, nothing reaches it afterwards, a mutator racing End is wholly in or '
+                  'wholly ignored, IsRecording false after End. Tied to the code by gen_span_lock_facts (lock guard before the first '
+                  'use of recordable_ / has_ended_ in every member function, never released early; End hands off inside the critical '
+                  'section) and by replaying real schedules of the unmodified span.cc under the deterministic scheduler on the model.')
+LEVEL_NOTE_ADD = (' Race sub-check: trusted = the scheduler shim (sequentially consistent, one runnable thread, lock / unlock and the '
+                  'harness Recordable / SpanProcessor calls are the scheduling points; plain reads of recordable_ / has_ended_ outside '
+                  'the lock are NOT scheduling points - a data race on them shows only through its effect at the next point), '
+                  'props/c04_race.py::abstract, tools/gen_c04race.py. AddLink / AddLinks (ABI v2) are covered by the generated '
+                  'lock-discipline facts only, not scheduled.')
 
 
 def _case(line, *tags, origin='gen'):
